@@ -5,7 +5,7 @@ fragment lookup and of the conversion traits, compared with the layout the parse
 import re
 
 from .. import iset, linear, shape, static
-from ..absint import FALSE, Agg, Conc, Expr, Obj, Ref, Sym, Top, Undecided
+from ..absint import FALSE, UNIT, Agg, Conc, Expr, Obj, Ref, Sym, Top, Undecided
 from ..summ import AIter, AVec
 
 LEVEL = "other"
@@ -457,11 +457,7 @@ def traverse_rule(ctx, res, rule="C11.traverse"):
     P = ctx.P
     try:
         tn = shape.find_inst(P, r"^<json_syntax::Traverse<'_> as std::iter::Iterator>::next$")
-        names = [c["path"] for bi, c, t in static.calls(P, tn) if c is not None]
-        need = {"pop": r"smallvec::SmallVec::<A>::pop$", "sub_fragments": r"FragmentRef::<'a>::sub_fragments$", "rev": r"std::iter::Iterator::rev$", "extend": r"as std::iter::Extend<.*>>::extend$"}
-        for k, rx in need.items():
-            res.ob(any(re.search(rx, n) for n in names), rule, "%s/next/%s" % (rule, k), "Traverse::next must pop one fragment and push its sub-fragments reversed (no call matching %s; calls: %r)" % (k, names),
-                   sample={"Traverse::next": k})
+        traverse_step(P, res, rule, tn)
         # offset: returned value is the old offset, then incremented by one
         tr = shape.find_inst(P, r"^json_syntax::Value::traverse$")
         sh = shape.Shape(P)
@@ -486,6 +482,145 @@ def traverse_rule(ctx, res, rule="C11.traverse"):
         res.violation(rule, rule + "/undecided", "while interpreting: %s" % e)
     from .C03 import subfragments
     subfragments(ctx, res, rule="C03.iter" if rule == "C11.traverse" else rule + ".subfragments")
+
+
+def traverse_step(P, res, rule, tn):
+    """One Traverse::next, interpreted on small concrete stacks (the SmallVec is an exact vector; `extend` drains its argument
+    through that iterator's own `next`): it pops the top fragment, returns it with the current number, increments the number,
+    and leaves the fragment's sub-fragments on the stack so that they pop in order - an entry: key then value; an array or
+    object: first child first; a scalar or key: nothing.  Whether the code says `extend(sub.rev())` or loops with next_back
+    and push does not matter."""
+    from ..absint import CallThen
+    from ..summ import AVec, _obj_of, mk_none, mk_some
+    tty = P.types[tn["locals"][1]]["to"]
+    roles = field_roles(P, tty)
+    if set(roles) != {"offset", "stack"}:
+        raise Undecided("cannot identify the counter and the stack of Traverse (%r)" % (roles,))
+    fr = [t for t in P.types if t.get("name") == "json_syntax::FragmentRef" and t["k"] == "adt"][0]
+    vt = [t for t in P.types if t.get("name") == "json_syntax::Value" and t["k"] == "adt"][0]
+    et = [t for t in P.types if t.get("name") == "json_syntax::object::Entry" and t["k"] == "adt" and "SmallString" in t["s"] and "Mapped" not in t["s"]][0]
+    ot = [t for t in P.types if t.get("name") == "json_syntax::Object" and t["k"] == "adt"][0]
+    fv = [v["name"] for v in fr["variants"]]
+    vv = [v["name"] for v in vt["variants"]]
+
+    def scenario(name, build):
+        key = "%s/next/%s" % (rule, name)
+        try:
+            sh = shape.Shape(P)
+            st = sh.st
+
+            def sv_pop(it, st_, c, a):
+                oid = _obj_of(it, st_, a[0], "pop")
+                m = st_.heap[oid]
+                rt = shape.ret_ty(it, c)
+                if not m.items:
+                    return mk_none(rt)
+                st_.heap[oid] = AVec(m.items[:-1], m.role)
+                return mk_some(rt, m.items[-1])
+
+            def sv_push(it, st_, c, a):
+                oid = _obj_of(it, st_, a[0], "push")
+                m = st_.heap[oid]
+                st_.heap[oid] = AVec(m.items + (a[1],), m.role)
+                return UNIT
+
+            sh.cut(r"^smallvec::SmallVec::<.*>::pop$", "sv_pop", ret=sv_pop)
+            sh.cut(r"^smallvec::SmallVec::<.*>::push$", "sv_push", ret=sv_push)
+
+            def sv_extend(it, st_, inst_, args, call):
+                oid = _obj_of(it, st_, args[0], "extend")
+                src = args[1]
+                if not (isinstance(src, Agg) and src.ty is not None):
+                    raise Undecided("extend from an iterator that is not tracked: %r" % (src,))
+                nxt = [i_ for i_ in P.inst if i_["path"].endswith("as std::iter::Iterator>::next") and i_.get("has_mir")
+                       and P.types[i_["locals"][1]]["k"] == "ref" and P.types[i_["locals"][1]]["to"] == src.ty]
+                if len(nxt) != 1:
+                    raise Undecided("cannot find the `next` of the iterator handed to extend (%s)" % P.types[src.ty]["s"])
+                cell = st_.new_obj(src)
+
+                def step(it2, st2, rv):
+                    if isinstance(rv, Agg) and rv.variant == 0:
+                        return UNIT
+                    if not (isinstance(rv, Agg) and rv.variant == 1):
+                        raise Undecided("next of the extended iterator returned %r" % (rv,))
+                    m = st2.heap[oid]
+                    st2.heap[oid] = AVec(m.items + (rv.fields[0],), m.role)
+                    return CallThen(nxt[0]["id"], [Ref(("H", cell.id), ())], step)
+
+                return CallThen(nxt[0]["id"], [Ref(("H", cell.id), ())], step)
+
+            sh.it.summaries.insert(0, (lambda i_: bool(re.search(r"^<smallvec::SmallVec<.*> as std::iter::Extend<.*>>::extend::<", i_["name"])), sv_extend))
+            stack_items, top, want_rest = build(st)
+            stack = st.new_obj(AVec(tuple(stack_items), "stack"))
+            o0 = sh.sym(kind="offset")
+            me = sh.cell(build_record(P, tty, roles, {"offset": o0, "stack": stack}))
+
+            def no_overflow(st_, base, a_, b_, tid):
+                if base == "Add" and not (isinstance(a_, Conc) and isinstance(b_, Conc)):
+                    return (Expr(base, (a_, b_), (64, False)), FALSE)
+                return None
+
+            sh.it.overflow_hooks.append(no_overflow)
+            outs = sh.run(tn, [me])
+            if len(outs) != 1 or outs[0].outcome[0] != "return":
+                raise Undecided("%d paths (%s)" % (len(outs), [o.outcome[0] for o in outs][:4]))
+            o = outs[0]
+            rv = o.outcome[1]
+            after = shape.deref(sh.it, o, me, 1)
+            left = [shape.deref(sh.it, o, x, 0) for x in o.heap[after.fields[roles["stack"]].id].items]
+            off = after.fields[roles["offset"]]
+            if top is None:
+                ok = isinstance(rv, Agg) and rv.variant == 0 and off == o0 and left == []
+                res.ob(ok, rule, key, "Traverse::next on an empty stack must return None and change nothing (returns %r, offset %r)" % (rv, off), sample={"Traverse::next": name})
+                return
+            okr = isinstance(rv, Agg) and rv.variant == 1 and isinstance(rv.fields[0], Agg) and tuple(rv.fields[0].fields) == (o0, top)
+            oko = same(off, plus(o0, 1))
+            okl = left == want_rest
+            res.ob(okr and oko and okl, rule, key,
+                   "Traverse::next on %s must return (offset, the top fragment), add one to the offset and leave the sub-fragments on the stack in popping order; returns %r, offset %r, stack %r (expected %r)" % (
+                       name, rv, off, left, want_rest), sample={"Traverse::next": name, "stack_after": [repr(x)[:40] for x in left]})
+        except Undecided as e:
+            res.violation(rule, key + "/undecided", "while interpreting: %s" % e)
+
+    def frag(variant, ref):
+        return Agg(fr["id"], fv.index(variant), (ref,))
+
+    def cellref(st, v):
+        return Ref(("H", st.new_obj(v).id), ())
+
+    def b_entry(st):
+        e = cellref(st, Agg(et["id"], 0, (Top(None, "the-key"), Top(None, "the-value"))))
+        below = frag("Key", cellref(st, Top(None, "other-key")))
+        names = [f["name"] for f in et["variants"][0]["fields"]]
+        kref = Ref(e.base, (("f", names.index("key")),))
+        vref = Ref(e.base, (("f", names.index("value")),))
+        return [below, frag("Entry", e)], frag("Entry", e), [below, frag("Value", vref), frag("Key", kref)]
+
+    def b_array(st):
+        vec = st.new_obj(AVec((Top(None, "item0"), Top(None, "item1")), "array"))
+        a = cellref(st, Agg(vt["id"], vv.index("Array"), (vec,)))
+        return [frag("Value", a)], frag("Value", a), [frag("Value", Ref(("H", vec.id), (("el", 1),))), frag("Value", Ref(("H", vec.id), (("el", 0),)))]
+
+    def b_object(st):
+        ents = st.new_obj(AVec((Agg(et["id"], 0, (Top(None, "k0"), Top(None, "v0"))), Agg(et["id"], 0, (Top(None, "k1"), Top(None, "v1")))), "entries"))
+        onames = [f["name"] for f in ot["variants"][0]["fields"]]
+        obj = Agg(ot["id"], 0, tuple(ents if n == "entries" else Top(None, "indexes") for n in onames))
+        a = cellref(st, Agg(vt["id"], vv.index("Object"), (obj,)))
+        return [frag("Value", a)], frag("Value", a), [frag("Entry", Ref(("H", ents.id), (("el", 1),))), frag("Entry", Ref(("H", ents.id), (("el", 0),)))]
+
+    def b_scalar(st):
+        a = cellref(st, Agg(vt["id"], vv.index("Null"), ()))
+        below = frag("Key", cellref(st, Top(None, "other-key")))
+        return [below, frag("Value", a)], frag("Value", a), [below]
+
+    def b_key(st):
+        k = frag("Key", cellref(st, Top(None, "a-key")))
+        return [k], k, []
+
+    for name, build in (("entry", b_entry), ("array", b_array), ("object", b_object), ("scalar", b_scalar), ("key", b_key), ("empty", lambda st: ([], None, []))):
+        scenario(name, build)
+        res.count("traverse_steps")
+    res.floor(rule, "traverse_steps", 6)
 
 
 def conv_rule(ctx, res):
